@@ -624,7 +624,14 @@ func (s *JavaFullListener) EnterExpression(ctx *parser.ExpressionContext) {
 
 		fullType, _ := WarpTargetFullType(targetType)
 
-		position := BuildPosition(ctx.BaseParserRuleContext, text)
+		// like a call, a method reference is positioned at the name of the method
+		identifier := ctx.Identifier().GetStart()
+		position := core_domain.CodePosition{
+			StartLine:         identifier.GetLine(),
+			StartLinePosition: identifier.GetColumn(),
+			StopLine:          identifier.GetLine(),
+			StopLinePosition:  identifier.GetColumn() + len(methodName),
+		}
 
 		jMethodCall := &core_domain.CodeCall{
 			Package:      RemoveTarget(fullType),
